@@ -1426,8 +1426,9 @@ rrul_fill_wly(echs_instant_t *restrict tgt, size_t nti, rrulsp_t rr)
 				if (UNLIKELY(echs_instant_lt_p(rr->until, x))) {
 					goto fin;
 				} else if (!(m_mask & (1U << this_m))) {
-					/* skip the whole month */
-					goto skip;
+					/* skip this day, the next day of the week
+					 * might be in the next month already */
+					break;
 				}
 				/* attach scale and convert back to greg */
 				x = echs_instant_attach_scale(x, srcsca);
@@ -1435,8 +1436,6 @@ rrul_fill_wly(echs_instant_t *restrict tgt, size_t nti, rrulsp_t rr)
 				tgt[res++] = x;
 			}
 		} while ((incs >>= 4U) && res < nti);
-	skip:
-		;
 	}
 
 fin:
